@@ -98,7 +98,9 @@ CLAIMS = {
              "clauses. Theorems: C07_lora_ack_is_read / C07_fsk_ack_is_read (program shape: the handler's first request reads the flag register "
              "and its next request writes exactly the byte read, for every handle), C07_later_events_stay_pending with the chip's "
              "write-1-to-clear semantics (flags raised between sampling and acknowledgement are still set afterwards), C07_idle_lora (no callback, "
-             "only the acknowledgement write), C07_cad_done, and with C05_rx_done / C06_tx_done exactly one matching callback per event. "
+             "only the acknowledgement write), C07_idle_fsk (FSK/OOK, every mode and handle: when the flag registers show nothing pending for that mode, no callback, no write "
+             "other than the acknowledgement of exactly the bytes read from RegIrqFlags2 and, in receive mode, RegIrqFlags1, handle unchanged; gwp calculus with a ghost that records any other action), "
+             "C07_cad_done, and with C05_rx_done / C06_tx_done exactly one matching callback per event. "
              "The lora_race script family raises events at chosen transfer indices of a running handler on the real driver.",
         technique="Lean 4 program-shape theorems + W1C chip lemma + event injection between SPI transfers",
         design="7 C07"),
